@@ -387,10 +387,18 @@ func (d *BFD) DecodeFromBytes(data []byte, df gopacket.DecodeFeedback) error {
 			d.AuthHeader.Data = BFDAuthData(data)
 		case BFDAuthTypeKeyedMD5, BFDAuthTypeMeticulousKeyedMD5:
 			// Skipped reserved byte
+			if len(data) < 5 {
+				df.SetTruncated()
+				return errors.New("BFD authentication section too short for its sequence number")
+			}
 			data, d.AuthHeader.SequenceNumber = data[5:], BFDAuthSequenceNumber(binary.BigEndian.Uint32(data[1:5]))
 			d.AuthHeader.Data = BFDAuthData(data)
 		case BFDAuthTypeKeyedSHA1, BFDAuthTypeMeticulousKeyedSHA1:
 			// Skipped reserved byte
+			if len(data) < 5 {
+				df.SetTruncated()
+				return errors.New("BFD authentication section too short for its sequence number")
+			}
 			data, d.AuthHeader.SequenceNumber = data[5:], BFDAuthSequenceNumber(binary.BigEndian.Uint32(data[1:5]))
 			d.AuthHeader.Data = BFDAuthData(data)
 		}
